@@ -65,8 +65,8 @@ def _oracle_checks(ctx, res, cands, t):
 # ---- K1: flat template (no temporal sub directories: the neighbourhood is all time) ------------------------
 @harness("C16.flat", cases=lambda tier: [(n, flt, ex) for n in ((1, 2) if tier == "quick" else (1, 2, 3))
                                          for flt in ("none", "white-A", "black-A") for ex in (0, 1)],
-         expect=lambda c: ["none-only-if-no-candidate"] if (c[0] == 1 and c[1] == "black-A") else
-         ["returns-a-candidate-file", "covering-file-whenever-one-exists", "nearest-otherwise"])
+         expect=lambda c: ["none-only-if-no-candidate", "indexing-reads-the-closest-file"] if (c[0] == 1 and c[1] == "black-A") else
+         ["returns-a-candidate-file", "covering-file-whenever-one-exists", "nearest-otherwise", "indexing-reads-the-closest-file"])
 def k_flat(ctx):
     n, flt, nper = ctx.case
     filters, passes = P1.FILTERS[flt]
@@ -84,6 +84,19 @@ def k_flat(ctx):
             el = P1._expected(ctx, f, datetime.min, datetime.max, periods, excl_names, passes)
             cands.append((f[0], f[1], f[2], el))
         _oracle_checks(ctx, res, cands, t)
+        # fileset[t] / fileset[t, filters]: the content of that very file, read once through the handler
+        th = TokenHandler(mfs)
+        fset.handler = th
+        try:
+            item = fset[t] if filters is None else fset[t, filters]
+        except F.NoFilesError:
+            item = None
+        if res is None:
+            ctx.check("indexing-reads-the-closest-file", item is None and not th.reads, detail=repr(item))
+        else:
+            ctx.check("indexing-reads-the-closest-file",
+                      item is not None and th.reads == [res.path] and item[1] == mfs.files[res.path],
+                      detail="fileset[t] read %r, find_closest gave %s" % (th.reads, res.path))
 
 
 # ---- K2: exact-name short cut -------------------------------------------------------------------------
@@ -194,6 +207,6 @@ BOUNDS = {"quick": {"flat template": "n <= 2 files with arbitrary symbolic cover
                                        "(microsecond) in 2019-12-20 .. 2020-03-20"},
           "thorough": {"flat template": "n <= 3", "sub directories": "7 layouts"}}
 OUTSIDE = ["ties may resolve either way (the statement asks for *a* nearest file)", "timestamps outside the calendar window",
-           "fileset[t] reading the file (handler I/O; see C11)"]
+           "the handlers' own I/O behind fileset[t] (a token handler stands in; see C11)"]
 STUBS = ["ModelFS / ModelFSSpec", "symbolic datetimes", "np proxy (abs / min / argmin over symbolic time differences)"]
 ASSUMPTIONS = ["t0 <= t1 for every file"]
